@@ -1,5 +1,6 @@
 import Verif.Conc.ClockHeld
-import Verif.Conc.Table
+import Verif.Generated.LockShape
+import Verif.Conc.WrapperTable
 /-!
 # ut_map / ut_set read the clock under the lock: `ClockHeld.lean` instantiated at the generated table
 
